@@ -14,7 +14,19 @@ os.makedirs('/tmp/mutcheck', exist_ok=True)
 subprocess.run(['git', '-C', '/repo', 'worktree', 'add', '-q', '--detach', wt, 'HEAD'], check=True)
 meta = dict(id=sid, breaks=pids[0], base_commit=subprocess.run(['git', '-C', '/repo', 'rev-parse', '--short', 'HEAD'], stdout=subprocess.PIPE, text=True).stdout.strip(), checks={})
 try:
-    demo_rel = open(os.path.join(src, 'DEMO_PATH.txt')).read().strip()
+    if not os.path.exists(os.path.join(src, 'DEMO_PATH.txt')) and os.path.exists(os.path.join(src, 'meta.json')):
+        # re-evaluation from the kept copy under seeded/<id>/
+        demo_rel = json.load(open(os.path.join(src, 'meta.json')))['demo_path']
+        tmp = '/tmp/mutcheck/src-' + sid
+        shutil.rmtree(tmp, ignore_errors=True)
+        os.makedirs(tmp)
+        shutil.copy(os.path.join(src, 'patch.diff'), tmp)
+        shutil.copy(os.path.join(src, 'zz_demo_test.go.txt'), os.path.join(tmp, 'zz_demo_test.go'))
+        if os.path.exists(os.path.join(src, 'NOTES.md')):
+            shutil.copy(os.path.join(src, 'NOTES.md'), tmp)
+        src = tmp
+    else:
+        demo_rel = open(os.path.join(src, 'DEMO_PATH.txt')).read().strip()
     demo_dst = os.path.join(wt, demo_rel)
 
     def sh(cmd, cwd=wt, timeout=1800):
